@@ -503,6 +503,27 @@ func (e *SpecEnv) callExpr(n *ast.CallExpr) Val {
 				op = ">="
 			}
 			return Val{T: fmt.Sprintf("(ite (%s %s %s) %s %s)", op, a.T, b.T, a.T, b.T), Ty: ty}
+		case "called":
+			// called(F): a call of a function or method named F has been executed on this path
+			// (since function entry; calls in earlier iterations of an enclosing loop do not
+			// count - the clause is meant for positive use only: "X happens after F").
+			name := ""
+			if len(n.Args) == 1 {
+				switch a := n.Args[0].(type) {
+				case *ast.Ident:
+					name = a.Name
+				case *ast.SelectorExpr:
+					name = a.Sel.Name
+				}
+			}
+			if name == "" {
+				e.errf("called(): want a function name")
+				return Val{T: "false", Ty: types.Typ[types.Bool]}
+			}
+			if v, ok := e.st.answered["called:"+name]; ok {
+				return Val{T: fmt.Sprintf("(= %s 1)", v), Ty: types.Typ[types.Bool]}
+			}
+			return Val{T: "false", Ty: types.Typ[types.Bool]}
 		case "visited":
 			// visited(k): key k has been delivered by the enclosing range-over-map loop
 			ver, ok := e.vars["rangevisited"]
